@@ -190,6 +190,16 @@ class SymExec:
             return mk_ite(self.cond_text(n.test), self.val(n.body), self.val(n.orelse))
         if isinstance(n, ast.Call) and dotted(n.func) == "slice" and len(n.args) == 2 and not n.keywords:
             return Slice(self.val(n.args[0]), self.val(n.args[1]))
+        if isinstance(n, ast.Call) and isinstance(n.func, ast.Name) and isinstance(self.env.get(n.func.id), Ite) and not n.keywords:
+            # a local that holds one of several functions: (f if c else g)(x) == f(x) if c else g(x)
+            args = ", ".join(self.text(a) for a in n.args)
+
+            def apply(v):
+                if isinstance(v, Ite):
+                    return mk_ite(v.cond, apply(v.a), apply(v.b))
+                return Opaque(f"{render(v)}({args})")
+
+            return apply(self.env[n.func.id])
         if isinstance(n, ast.Call) and dotted(n.func) in self.watch:
             self.effects.append(("watch", (dotted(n.func), [self.val(a) for a in n.args], n), self.path))
         return Opaque(self.text(n))
